@@ -275,7 +275,7 @@ def run(ctx):
                     agg[key] = cur[:5] + (cur[5] + 1,)
     ctx.paths += n_paths
     solver_s = time.time() - t0
-    ctx.ob("C09.guard.paths", "guard", n_paths > 0 and "iteration" in statuses and "exit" in statuses, "path-enumeration", 0.0,
+    ctx.ob("C09.guard.paths", "guard", (n_paths > 0 and "iteration" in statuses and "exit" in statuses) if n_paths > 0 else None, "path-enumeration", 0.0,
            "%d paths; reached: %s" % (n_paths, sorted(set(statuses))))
     for name in sorted(agg):
         rank, st, detail, cex, mode, count = agg[name]
@@ -291,6 +291,9 @@ def run(ctx):
     helpers.numpy_contracts_standin(ctx, py, "C09")
     ctx.guard(_standin, ctx, py)
 
+    # "exactly once" rests on the measurement models' contract "None iff the time is absent from the table" (C06), re-established here
+    from props import C06 as _C06
+    ctx.guard(_C06._absent, ctx, py)
     # frame of the modules under contract (no state kept between calls, arguments left alone): same analysis as C19
     from props import C19 as _C19
     ctx.guard(_C19.frame_obligations, ctx, py, "C09", {'filters'})
@@ -354,6 +357,12 @@ def gen_schedules(rng, n):
             sensors.append(sorted(set(float(np.round(x, 6)) for x in ts)))
         if len(sensors) >= 2 and rng.rand() < 0.5:
             sensors[1] = sorted(set(sensors[1] + sensors[0][:2]))        # stamps shared between sensors
+        if k % 5 == 4:
+            # a whole-second sensor listed FIRST (stored with an integer index) next to fractional-second ones
+            t_lo, t_hi = int(np.ceil(t0)), int(np.floor(T[-1]))
+            whole = [float(x) for x in range(t_lo, t_hi + 1)]
+            frac = sorted(set(float(np.round(x, 6)) for x in rng.uniform(t0, T[-1], 5)))
+            sensors = [whole if whole else frac, frac] + sensors[:1]
         step = float(rng.choice([0.03, 0.1, 0.25, 1.0, 2 * (T[-1] - t0)]))
         mode = "list" if sensors else str(rng.choice(["none", "empty"]))
         out.append(dict(t0=t0, T=[float(x) for x in T], sensors=sensors, time_step=step, mode=mode, wa=bool(rng.rand() < 0.7)))
